@@ -140,6 +140,12 @@ def make_h_scope(nlines):
             lines[0] = _directive("file", style, tool, "nesting")
         elif second != "none":
             ctx.assume(False)
+        # a character that str.splitlines() treats as a line break but compilers do not (form feed, VT, FS, NEL, LS) in line 1
+        odd = ctx.pick("odd_separator_character_in_line_1", ("none", "\x0c", "\x0b", "\x1c", "\x85", "\u2028"))
+        if odd != "none":
+            if "ignore" in lines[0]:
+                ctx.assume(False)
+            lines[0] += "  " + style + " page" + odd + "break"
         content = "\n".join(lines) + "\n"
         d = Path(tempfile.gettempdir()) / "c04-scope-project"
         parser = IgnoreDirectiveParser(d)
